@@ -289,13 +289,15 @@ def run(res):
     res.coverage["exhaustive"] = False
     res.coverage["traces_validated_against_impl"] = len(ops) + res.coverage.get("sh_evaluations", 0)
 
-    if fd_corr and not [v for v in res.violations if v["found_input"]]:
+    known_keys = {e.get("key") for e in vlib.load_known_findings(PID) if e.get("status") == "open"}
+    unknown_found = [v for v in res.violations if v["found_input"] and v["key"] not in known_keys]
+    if fd_corr and not unknown_found:
         i = fd_corr[0]
         res.violation("correspondence model/implementation differs at %r: impl=%s model=%s (%d differing ops); the ABI monitor "
                       "is good or silent on them" % (ops[i], impl[i], model[i], len(fd_corr)),
                       {"ops": [ops[i]], "impl": impl[i], "model": model[i], "unchecked": "correspondence Model/CallConv.lean ~ x86func.cpp/a64func.cpp"},
                       False, key="corr")
-    elif sh_corr and not [v for v in res.violations if v["found_input"]]:
+    elif sh_corr and not unknown_found:
         o, a, b, n = sh_corr
         res.violation("correspondence model/implementation differs at %r: impl=%s model=%s (%d differing ops); the machine monitor is good "
                       "on them" % (o, a, b, n), {"ops": [o], "impl": a, "model": b,
